@@ -132,6 +132,25 @@ def run(ctx):
             ctx.violation('use before / after (re)definition: expected words %r, got %r' % (want, got), src=c['src'], opts=c['opts'],
                           D='', X=c['src'], case=semrun.pack(c))
     reload_cases(ctx)
+    # repeated uses of one definition with the optional argument omitted: every use gets the default
+    rc = []
+    for _ in range(ctx.scale(150, 3000)):
+        ast, r = gen.repeat_doc(rng)
+        rc.append({'src': r.src(), 'opts': {'pack': '*'}, 'multi': False, 'ast': ast, 'want_toks': False})
+    rr = ctx.pmap(t2t.run_case, [{k: v for k, v in c.items() if k != 'ast'} for c in rc])
+    for c, r in zip(rc, rr):
+        ctx.case(c['src']); ctx.count('repeat_cases')
+        if r['outcome'] != 'ok':
+            continue
+        try:
+            exp = sem.evaluate(c['ast'])
+        except sem.Unsupported:
+            continue
+        got = [w for w, _ in semrun.out_words(r['txt']) if w not in exp.hidden]
+        want = [w for w, _ in exp.seq]
+        if got != want:
+            ctx.violation('repeated uses of a definition: expected words %r, got %r' % (want, got), src=c['src'], opts=c['opts'],
+                          D='', X=c['src'], case=semrun.pack(c))
 
 def reload_cases(ctx):
     """the same definition file read twice with a redefinition in between: every \\LTinput reads the file again
